@@ -7,7 +7,8 @@
 (*   [bits : 32 | 64, lfanew, secs : Seq([size, fpos]) in header order (fpos = rank in file    *)
 (*    order), slack : bytes between section table and SizeOfHeaders, gap : unreferenced bytes   *)
 (*    in front of the section with file rank gappos, trail : bytes after the last section,      *)
-(*    cert : size of an existing certificate table (0 = none)]                                  *)
+(*    cert : size of an existing certificate table (0 = none),
+    zptr : "zero" | "pos" - whether sections with SizeOfRawData = 0 have PointerToRawData 0 or a file position]                                  *)
 (* All offsets below are file offsets in bytes.                                                *)
 EXTENDS Integers, Sequences, FiniteSets, TLC, SequencesExt, FiniteSetsExt
 
@@ -34,7 +35,8 @@ SizeBefore(i, rank) == \* bytes of raw data (and gap) placed before the section 
   IF rank = 1 THEN (IF i.gappos = 1 THEN i.gap ELSE 0)
   ELSE LET prev == CHOOSE k \in 1..NSec(i) : i.secs[k].fpos = rank - 1 IN
        SizeBefore(i, rank - 1) + i.secs[prev].size + (IF i.gappos = rank THEN i.gap ELSE 0)
-Ptr(i, k)   == IF i.secs[k].size = 0 THEN 0 ELSE SOH(i) + SizeBefore(i, i.secs[k].fpos)   \* PointerToRawData
+Ptr(i, k)   == IF i.secs[k].size = 0 /\ i.zptr = "zero" THEN 0                     \* PointerToRawData; a section without raw data
+               ELSE SOH(i) + SizeBefore(i, i.secs[k].fpos)                           \* may still carry a (meaningless) non-zero pointer
 RawEnd(i)   == IF NSec(i) = 0 THEN SOH(i) + (IF i.gappos = 1 THEN i.gap ELSE 0)
                ELSE LET last == CHOOSE k \in 1..NSec(i) : i.secs[k].fpos = NSec(i) IN
                     SOH(i) + SizeBefore(i, NSec(i)) + i.secs[last].size
